@@ -72,7 +72,7 @@ def helper_key(argv0, cwd):
 
 class Fixture:
     def __init__(self, bins, targets, sequences=None, max_retained_runs=None, extra_cfg=None, gitignore=None, lock_host=None,
-                 via=None, ignore_via=None):
+                 via=None, ignore_via=None, sepgit=None):
         """targets: list of dicts {path, uses?, ignores?, commands?, argmaps?}
         via: how the configuration file is named on the command line -- "plain" (canonical path), "link" (through a
         symbolic link to the repository), "dotdot" (a path with a `..` component).  monorail takes its work path from
@@ -107,6 +107,7 @@ class Fixture:
         else:
             self.wp = self.repo
         self.cfg_arg = os.path.join(self.wp, "Monorail.json")     # the -f argument; cfg_path stays the physical file
+        self.sepgit = sepgit
         # where the caller's ignore patterns live: git's three standard exclude sources name the same set of paths
         if ignore_via is None:
             ignore_via = ("tree", "info", "global")[hashlib.sha256(json.dumps([targets, gitignore], sort_keys=True, default=str).encode()).digest()[1] % 3]
@@ -175,7 +176,7 @@ class Fixture:
         # every fourth repository keeps its git directory elsewhere: `.git` is then a FILE naming it (as in a linked
         # working tree or a submodule checkout); the directory is the top of a work tree all the same
         hv = hashlib.sha256(json.dumps([self.targets, self.sequences], sort_keys=True, default=str).encode()).digest()[2]
-        sep = os.environ.get("VERIF_SEPGIT", "1" if hv % 4 == 0 else "0") == "1"
+        sep = os.environ.get("VERIF_SEPGIT", "1" if (self.sepgit if self.sepgit is not None else hv % 4 == 0) else "0") == "1"
         if sep:
             self.git("init", "-q", "--separate-git-dir", os.path.join(self.root, "sepgit"))
         else:
